@@ -434,6 +434,10 @@ func getHorizontalTileIdOnPoint(lon float64, lat float64, hZoom int64) string {
 
 	// 経度方向のインデックスの計算
 	lonIndex := math.Floor(math.Pow(2, float64(hZoom)) * ((lon + 180.0) / 360.0))
+	if lonIndex >= math.Pow(2, float64(hZoom)) {
+		// 180度直前の経度は浮動小数点の丸めでインデックスが範囲外(2^hZoom)となるため、最大インデックスに収める
+		lonIndex = math.Pow(2, float64(hZoom)) - 1
+	}
 
 	// 緯度をラジアンに変換
 	latRadian := common.DegreeToRadian(lat)
